@@ -141,7 +141,9 @@ def build_and_audit(prop_files: list[str], leanchecker: bool = False) -> ProofSt
                 # which theorems fail?  Lean reports `error: file:line:col` — map lines to theorems
                 bad = failing_theorems(rel, log)
                 if not bad:
-                    bad = {n: "module failed to build" for n in names}
+                    errs = re.findall(r"error: [^\n]*(?:\n(?!\S*(?:error|warning|info):)[^\n]*){0,8}", log)
+                    msg = "module failed to build (a lemma it depends on no longer checks): " + (errs[0][:1200] if errs else log[-800:])
+                    bad = {n: msg for n in names}
                 for n, msg in bad.items():
                     st.failed[n] = msg
                 continue
@@ -424,6 +426,19 @@ class Check:
         return 1 if violations else 0
 
     def _write_replay(self, body: dict) -> str:
+        try:
+            import pretty
+            if body.get("line") and not body.get("python"):
+                body["python"] = pretty.describe(body["line"])
+            for k in ("impl_output", "model_output"):
+                if body.get(k):
+                    body[k + "_decoded"] = pretty.decode_answer(body[k])
+            for d in body.get("correspondence_differences", []) or []:
+                d["python"] = pretty.describe(d.get("line", ""))
+                d["impl_decoded"] = pretty.decode_answer(d.get("impl_output", ""))
+                d["model_decoded"] = pretty.decode_answer(d.get("model_output", ""))
+        except Exception:
+            pass
         h = hashlib.sha1(json.dumps(body, sort_keys=True).encode()).hexdigest()[:10]
         rel = f"replays/{self.pid}-{h}.json"
         with open(os.path.join(VERIF, rel), "w") as f:
